@@ -412,6 +412,52 @@ func TestC14(t *testing.T) {
 		}
 	})
 
+	// ---- partial references: strings that parse as URLs but lack a scheme or a host (network-path "//host/path", "host/path",
+	// "/path?query", "scheme:path"), paired with each other and with the absolute URLs they were cut from: reflexive and symmetric ----
+	if r.WantLayer("partials", true) {
+		var strs []string
+		for _, u := range []string{"http://example.com/a", "https://example.com/a/", "http://example.com:8080/a/b?x=1", "https://EXAMPLE.com/A/../b?y=2&x=1#f", "http://example.com", "http://example.com/?x=1&x=2", "https://[::1]:8080/x"} {
+			rest := u[strings.Index(u, "://")+3:]
+			path := "/"
+			if i := strings.Index(rest, "/"); i >= 0 {
+				path = rest[i:]
+			}
+			strs = append(strs, u, "//"+rest, rest, path, u[:strings.Index(u, "://")]+":"+path, u[:strings.Index(u, "://")]+":"+rest, "//"+rest+"/", " "+u, u+" ", strings.ToUpper("//"+rest))
+		}
+		cells := 0
+		for i, a := range strs {
+			for j, b := range strs {
+				for _, cs := range []bool{false, true} {
+					cell := fmt.Sprintf("partials %q %q %v", a, b, cs)
+					if !r.WantCell(cell) {
+						continue
+					}
+					cells++
+					var rab, rba, raa bool
+					pi := ev.Safe(func() {
+						raa = ap.IRI(a).Equals(ap.IRI(a), cs)
+						rab = ap.IRI(a).Equals(ap.IRI(b), cs)
+						rba = ap.IRI(b).Equals(ap.IRI(a), cs)
+					})
+					r.Case(cell, a != b, "partials")
+					if (i*len(strs)+j)%1999 == 0 {
+						r.Sample(cell, map[string]interface{}{"layer": "partials", "a": a, "b": b, "checkScheme": cs, "a==b": rab})
+					}
+					switch {
+					case pi != nil:
+						r.Report("partials", cell, "iri panic@"+pi.Frame, pi.Value, map[string]interface{}{"a": a, "b": b, "checkScheme": cs})
+					case !raa:
+						r.Report("partials", cell, "iri strings reflexive", fmt.Sprintf("IRI(%q).Equals(itself, %v) = false", a, cs), map[string]interface{}{"a": a, "checkScheme": cs})
+					case rab != rba:
+						r.Report("partials", cell, "iri strings symmetric", fmt.Sprintf("IRI(%q).Equals(%q, %v) = %v but the converse = %v", a, b, cs, rab, rba), map[string]interface{}{"a": a, "b": b, "checkScheme": cs})
+					}
+				}
+			}
+		}
+		r.Cells(len(strs)*len(strs)*2, cells)
+		r.Exhaustive("partials", !r.Replaying())
+	}
+
 	// ---- arbitrary strings: reflexive and symmetric ----
 	hostile := []string{"", "-", "#", "#x", "://", "http://", "http:///a", "HTTP://H", "http://h", "a b", "\x00", "%zz", "http://h/%zz", "http://[::1", "mailto:a@b", "urn:x:y", "//h/p", "?a=1", "http://h?a=1;b=2", "ǅ", "ǆ", "ß", "SS", "K", "k", "http://ǅ/", "http://ǆ/"}
 	strG := rapid.OneOf(rapid.SampledFrom(hostile), rapid.String(), rapid.StringOfN(rapid.RuneFrom([]rune("htp:/#?=&.%aA1 -")), 0, 24, -1))
